@@ -286,3 +286,174 @@ func lockPathVia(lt *LockTable, pathFn func(ssa.Value) string, v ssa.Value) stri
 	}
 	return "?"
 }
+
+func init() {
+	reg("C17-R5", "inclusive start bound of the skip-list range scan: FindEntryByKey returns found=true only together with the index whose key compared equal; FindNodeWithEntryIdxForItr forwards that pair; and in SkipListIterator.initRIDList the first entry read (when no node hop intervenes) is slot idx+0 when the start key was found and slot idx+1 (the entry after the nearest smaller key) when it was not — computed as a constant offset along every path", func(w *World, r *Report) {
+		findItr := w.MethodObj("container/skip_list", "SkipList", "FindNodeWithEntryIdxForItr")
+		findEntry := w.MethodObj("storage/page/skip_list_page", "SkipListBlockPage", "FindEntryByKey")
+		keyAt := w.MethodObj("storage/page/skip_list_page", "SkipListBlockPage", "KeyAt")
+		getEntry := w.MethodObj("storage/page/skip_list_page", "SkipListBlockPage", "GetEntry")
+		fetchCast := w.FuncObj("storage/page/skip_list_page", "FetchAndCastToBlockPage")
+		cmpEq := w.MethodObj("types", "Value", "CompareEquals")
+		// (a) FindEntryByKey
+		fe := w.SSA(findEntry)
+		nTrue := 0
+		for _, b := range fe.Blocks {
+			ret, ok := b.Instrs[len(b.Instrs)-1].(*ssa.Return)
+			if !ok || len(ret.Results) != 3 {
+				continue
+			}
+			if !canBeBool(retOperand(ret, 0), true, map[ssa.Value]bool{}) {
+				continue
+			}
+			nTrue++
+			retIdx := linEval(retOperand(ret, 2), nil, 0)
+			// nearest dominating true edge of a CompareEquals test
+			okGuard := false
+			why := "no dominating `key at index i equals the search key` test"
+			child := b
+			for d := b.Idom(); d != nil; child, d = d, d.Idom() {
+				i := blockIf(d)
+				if i == nil {
+					continue
+				}
+				base, neg := condBase(i.Cond)
+				c, isCall := base.(*ssa.Call)
+				if !isCall || CalleeObj(c) != cmpEq {
+					continue
+				}
+				// the return must lie on the equal side
+				eqSucc := d.Succs[0]
+				if neg {
+					eqSucc = d.Succs[1]
+				}
+				if !(eqSucc == child || eqSucc.Dominates(child)) || len(eqSucc.Preds) != 1 {
+					why = "the return at " + w.InstrPos(ret) + " is not on the equal side of the comparison at " + w.InstrPos(i)
+					break
+				}
+				// index of the compared key
+				var idxArg ssa.Value
+				DependsOn(c.Call.Args[0], func(v ssa.Value) bool {
+					cc, ok := v.(*ssa.Call)
+					if ok && (CalleeObj(cc) == keyAt || CalleeObj(cc) == getEntry) && idxArg == nil {
+						idxArg = cc.Call.Args[1]
+						return true
+					}
+					return false
+				})
+				if idxArg == nil {
+					why = "the compared key at " + w.InstrPos(i) + " is not read through KeyAt/GetEntry"
+					break
+				}
+				k := linEval(idxArg, nil, 0)
+				if k.OK && retIdx.OK && k.Base == retIdx.Base && k.Off == retIdx.Off {
+					okGuard = true
+				} else {
+					why = "found=true is returned at " + w.InstrPos(ret) + " with an index other than the one whose key compared equal at " + w.InstrPos(i)
+				}
+				break
+			}
+			r.Check(okGuard, "FindEntryByKey:found-index-is-the-equal-slot"+ordinalInBlockReturns(fe, ret), "found=true is returned with the index of the slot whose key equals the search key", why)
+		}
+		r.Floor("found=true returns of FindEntryByKey", nTrue, 1)
+		// (b) FindNodeWithEntryIdxForItr forwards (found, idx) of one FindEntryByKey call
+		fi := w.SSA(findItr)
+		nRet := 0
+		for _, b := range fi.Blocks {
+			ret, ok := b.Instrs[len(b.Instrs)-1].(*ssa.Return)
+			if !ok || len(ret.Results) != 3 {
+				continue
+			}
+			nRet++
+			e0, ok0 := stripConv(retOperand(ret, 0)).(*ssa.Extract)
+			e2, ok2 := stripConv(retOperand(ret, 2)).(*ssa.Extract)
+			good := ok0 && ok2 && e0.Tuple == e2.Tuple && e0.Index == 0 && e2.Index == 2
+			if good {
+				c, isCall := e0.Tuple.(*ssa.Call)
+				good = isCall && CalleeObj(c) == findEntry
+			}
+			r.Check(good, "FindNodeWithEntryIdxForItr:forwards-found-and-index", "found and index come unchanged from one FindEntryByKey call", "return at "+w.InstrPos(ret)+" does not forward (found, index) of a FindEntryByKey call")
+		}
+		r.Floor("returns of FindNodeWithEntryIdxForItr", nRet, 1)
+		// (c) initRIDList
+		it := w.Fn("container/skip_list", "SkipListIterator", "initRIDList")
+		calls := sitesCalling(it, findItr)
+		r.Floor("FindNodeWithEntryIdxForItr calls in initRIDList", len(calls), 1)
+		for _, cs := range calls {
+			c := cs.(*ssa.Call)
+			var found, slot ssa.Value
+			for _, ref := range *c.Referrers() {
+				if e, ok := ref.(*ssa.Extract); ok {
+					if e.Index == 0 {
+						found = e
+					} else if e.Index == 2 {
+						slot = e
+					}
+				}
+			}
+			if found == nil || slot == nil {
+				r.Bad("initRIDList:uses-found-and-index", "the iterator positions itself from (found, index)", "found or index result of the call at "+w.InstrPos(c)+" is unused")
+				continue
+			}
+			stop := func(in ssa.Instruction) (ssa.Value, bool) {
+				cc, ok := in.(*ssa.Call)
+				if ok && CalleeObj(cc) == getEntry {
+					return cc.Call.Args[1], true
+				}
+				return nil, false
+			}
+			hop := func(in ssa.Instruction) bool { return InstrCallsObj(fetchCast)(in) }
+			isFound := func(v ssa.Value) bool { return v == found }
+			for _, cse := range []struct {
+				name  string
+				truth bool
+				off   int64
+			}{{"found", true, 0}, {"not-found", false, 1}} {
+				paths := LinPaths(it, cs, []EdgeCut{CutWhen(isFound, !cse.truth)}, stop, hop)
+				var bad []string
+				for _, p := range paths {
+					if !(p.Val.OK && p.Val.Base == slot && p.Val.Off == cse.off) {
+						desc := "a value not of the form index+const"
+						if p.Val.OK && p.Val.Base == slot {
+							desc = "index" + signed(p.Val.Off)
+						} else if p.Val.OK && p.Val.Base == nil {
+							desc = "constant " + itoa(int(p.Val.Off))
+						}
+						bad = append(bad, "first entry read at "+w.InstrPos(p.Stop)+" is slot "+desc+" (blocks "+intsJoin(p.Blocks)+")")
+					}
+				}
+				r.Floor("initRIDList paths to the first entry read ("+cse.name+")", len(paths), 1)
+				r.Check(len(bad) == 0, "initRIDList:first-entry-read:"+cse.name, "the scan starts at slot index"+signed(cse.off)+" when the start key was "+cse.name, strings.Join(uniq(bad), "; "))
+			}
+		}
+	})
+}
+
+func signed(i int64) string {
+	if i < 0 {
+		return "-" + itoa(int(-i))
+	}
+	return "+" + itoa(int(i))
+}
+
+func intsJoin(xs []int) string {
+	var s []string
+	for _, x := range xs {
+		s = append(s, itoa(x))
+	}
+	return strings.Join(s, ">")
+}
+
+// ordinalInBlockReturns numbers the returns of fn in block order ("#1", "#2", …).
+func ordinalInBlockReturns(fn *ssa.Function, ret *ssa.Return) string {
+	n := 0
+	for _, b := range fn.Blocks {
+		if x, ok := b.Instrs[len(b.Instrs)-1].(*ssa.Return); ok {
+			n++
+			if x == ret {
+				return "#" + itoa(n)
+			}
+		}
+	}
+	return ""
+}
